@@ -49,6 +49,7 @@ __all__ = [
 # stdlib imports
 import logging
 import datetime
+import hashlib
 import os
 import tempfile
 import http.cookiejar
@@ -486,7 +487,10 @@ class OFXClient:
 
         ofxget.scan_profile() overrides version/prettyprint/close_elements.
         """
-        filename = f"{self.org}-{self.fid}.profrs"
+        # A profile describes one server: key the cache by URL as well as by
+        # ORG/FID, which many FIs leave blank and which needn't be unique.
+        urlhash = hashlib.sha1((url or self.url).encode("utf_8")).hexdigest()[:12]
+        filename = f"{self.org}-{self.fid}-{urlhash}.profrs"
         persistdir = config.DATADIR / "fiprofiles"
         persistpath = persistdir / filename
 
